@@ -423,4 +423,43 @@ theorem tie_cacheLocks :
                        "c.timingWheel.SetTimer(key, value, expiry)"]
     ∧ cacheSizeLocks = ["c.lock.Lock()", "defer c.lock.Unlock()", "body"] := by decide
 
+/-! ### statistics and the rejected timer -/
+
+/-- `Get`: exactly one of hit / miss per call (the driver's hit/miss accounting) -/
+theorem tie_cacheGetStatStmts : cacheGetStatStmts = [
+    "value, ok := c.doGet(key)",
+    "if ok {",
+    "c.stats.IncrementHit()",
+    "}",
+    "else {",
+    "c.stats.IncrementMiss()",
+    "}",
+    "return value, ok"] := by decide
+
+/-- `Take`: found at once = hit; loaded by this call (`fresh`) = miss; result shared through the barrier (or found by
+the re-check) = hit; error = neither -/
+theorem tie_cacheTakeStatStmts : cacheTakeStatStmts = [
+    "if val, ok := c.doGet(key); ok {",
+    "c.stats.IncrementHit()",
+    "return val, nil",
+    "}",
+    "var fresh bool",
+    "val, err := c.barrier.Do(key, func() (any, error) { if val, ok := c.doGet(key); ok { return val, nil } v, e := fetch() if e != nil { return nil, e } fresh = true c.Set(key, v) return v, nil })",
+    "if err != nil {",
+    "return nil, err",
+    "}",
+    "if fresh {",
+    "c.stats.IncrementMiss()",
+    "return val, nil",
+    "}",
+    "c.stats.IncrementHit()",
+    "return val, nil"] := by decide
+
+/-- `SetTimer` rejects a delay ≤ 0 before anything is sent to the wheel (`CacheG.setNoTimer`: no timer operation) -/
+theorem tie_wheelSetTimerStmts : wheelSetTimerStmts = [
+    "if delay <= 0 || key == nil {",
+    "return ErrArgument",
+    "}",
+    "select { case tw.setChannel <- timingEntry{ baseEntry: baseEntry{ delay: delay, key: key, }, value: value, }: return nil case <-tw.stopChannel: return ErrClosed }"] := by decide
+
 end GoZero.C16.Tie
